@@ -119,9 +119,13 @@ def extract_default(
     par = {"{": 0, "[": 0, "(": 0, ")": 0, "]": 0, "}": 0}
     sub_l = line[_end_idx:]
     sub_l_len = len(sub_l)
+    quoted_with = None  # the quote mark (or back-tick) the scan is inside of, if any
     for idx, ch in enumerate(sub_l):
+        if ch in frozenset(("'", '"', "`")) and quoted_with in frozenset((None, ch)):
+            quoted_with = None if quoted_with else ch
         if (
             ch == "."
+            and quoted_with is None
             and (idx == (sub_l_len - 1) or not (sub_l[idx + 1]).isdigit())
             and par["("] == par[")"]
             and par["["] == par["]"]
